@@ -640,3 +640,51 @@ def rename_roles(fn: FuncInfo, mapping: Dict[str, str]) -> bool:
         elif isinstance(n, ast.arg) and n.arg in mapping:
             n.arg = mapping[n.arg]
     return True
+
+
+def as_comprehension(scope: Scope, name: str) -> Optional[ast.ListComp]:
+    """The list comprehension that the accumulation `name = []; for T in IT: [if C:] name.append(E)` abbreviates
+    (synthetic node carrying the original sub-expressions), or None.  Conditions: `name` is bound once to an empty
+    list, exactly one statement mutates it - that append, which is the only statement of its (possibly guarded) loop
+    body position - and the loop has no break / continue / else."""
+    sites = scope.assigns.get(name, [])
+    if len(sites) != 1 or scope.n_bindings(name) != 1:
+        return None
+    v = sites[0].value
+    if not ((isinstance(v, ast.List) and not v.elts) or (isinstance(v, ast.Call) and txt(v.func) == "list" and not v.args)):
+        return None
+    muts = scope.mutated.get(name, [])
+    if len(muts) != 1:
+        return None
+    call = muts[0]
+    if not (isinstance(call, ast.Call) and isinstance(call.func, ast.Attribute) and call.func.attr == "append" and len(call.args) == 1):
+        return None
+    par = scope.parents
+    st = par.stmt_of(call)
+    if not (isinstance(st, ast.Expr) and st.value is call):
+        return None
+    loops = par.loops_of(st)
+    if not loops or not isinstance(loops[0], ast.For) or loops[0].orelse:
+        return None
+    lp = loops[0]
+    if any(isinstance(x, (ast.Break, ast.Continue, ast.Return)) for b in lp.body for x in ast.walk(b)):
+        return None
+    # the loop body is exactly the (nested-if guarded) append
+    ifs = []
+    body = lp.body
+    while True:
+        if len(body) != 1:
+            return None
+        s = body[0]
+        if s is st:
+            break
+        if isinstance(s, ast.If) and not s.orelse:
+            ifs.append(s.test)
+            body = s.body
+            continue
+        return None
+    # the definition must precede the loop in the same block or an enclosing one
+    if sites[0].lineno > lp.lineno:
+        return None
+    comp = ast.ListComp(elt=call.args[0], generators=[ast.comprehension(target=lp.target, iter=lp.iter, ifs=ifs, is_async=0)])
+    return ast.copy_location(comp, lp)
